@@ -51,6 +51,31 @@ def run(rep, props, replay=None):
             mon.append("pointwise mean of centred data is not zero")
         if np.max(np.abs(np.asarray(fd.dense(x, cen).center().values) - cen)) > 1e-10 * sc:
             mon.append("centering twice changes the data")
+        # history: centering is a function of the curves the object holds now, not of what was computed on it before
+        from FDApy.representation.values import DenseValues
+        if m >= 4:
+            dh = fd.dense(x, X)
+            try:
+                import warnings as _w
+                with _w.catch_warnings():
+                    _w.simplefilter("ignore")
+                    dh.mean(method_smoothing="LP", bandwidth=float(np.ptp(x)) * 0.6)
+                    dh.center(method_smoothing="PS", n_segments=2, penalty=10.0)
+            except Exception:  # noqa: BLE001
+                pass
+            c1 = np.asarray(dh.center().values)
+            if np.max(np.abs(c1 - cen)) > 1e-12 * sc:
+                mon.append(f"center() after a smoothed mean()/center() on the same object differs from center() of fresh data "
+                           f"(pointwise mean of the result {np.max(np.abs(c1.mean(axis=0))):.3g})")
+            Xn = np.round((X[::-1] * 0.5 + 2.0) * 64) / 64 + np.arange(m) * 0.25
+            dh.values = DenseValues(Xn)
+            c2 = np.asarray(dh.center().values)
+            if np.max(np.abs(c2 - (Xn - Xn.mean(axis=0)))) > 1e-10 * sc:
+                mon.append("center() after the curves were replaced through the values setter does not give zero pointwise mean")
+            s2 = np.asarray(dh.standardize().values)
+            sdn = np.std(Xn, axis=0)
+            if np.all(np.isfinite(s2)) and np.max(np.abs(s2.var(axis=0)[sdn > 1e-9 * sc] - 1.0), initial=0) > 1e-8:
+                mon.append("standardize() after the curves were replaced through the values setter does not give unit variance")
         # normalize
         nrm = d.norm()
         if np.all(nrm > 1e-8):
